@@ -181,7 +181,7 @@ func ParseContractFile(path, pkg string) (*ContractFile, error) {
 	var cur *FuncContract
 	mk := func(text string, line int) (*Clause, error) {
 		tag := ""
-		if m := regexp.MustCompile(`^\[(\w+)\]\s*`).FindStringSubmatch(text); m != nil {
+		if m := regexp.MustCompile(`^\[([\w:]+)\]\s*`).FindStringSubmatch(text); m != nil {
 			tag = m[1]
 			text = text[len(m[0]):]
 		}
